@@ -16,8 +16,9 @@ BlobSeq   == <<"Never", "Also", "Only">>
 Pick(seq, r) == seq[(r % Len(seq)) + 1]
 VocabSeq(a) == CASE a = "state" -> StateSeq [] a = "perm" -> PermSeq [] a = "rule" -> RuleSeq
 ClassSeq == <<"plain", "markup", "squote", "dquote", "bmp", "astral", "innerws", "newline", "padded", "empty", "blank">>
+\* (classes "longa" / "longb" are used by the equality cases only: long values sharing a 1500-character prefix)
 NumSeq   == <<"numint", "numdec", "numsexa", "numzero">>
-ClassIdx(c) == CHOOSE i \in 1..Len(ClassSeq) : ClassSeq[i] = c
+ClassIdx(c) == IF \E i \in 1..Len(ClassSeq) : ClassSeq[i] = c THEN CHOOSE i \in 1..Len(ClassSeq) : ClassSeq[i] = c ELSE 1
 \* class used for attribute slots: the normalisation classes only apply to text
 AttrClass(c) == IF c \in NormClasses THEN "plain" ELSE c
 
@@ -30,6 +31,7 @@ PartTextVal(tag, c, r, j) ==
     [] S.text = "number" -> IF j = 2 /\ r = 0 /\ ClassIdx(c) % 3 = 0 THEN NoVal
                             ELSE V(Pick(NumSeq, r + 2 * j + ClassIdx(c)), "n" \o ToString(j))
     [] S.text = "free"   -> IF (r + j) % 4 = 3 THEN NoVal
+                            ELSE IF c = "longa" THEN V("longa", "t" \o ToString(j))
                             ELSE V(Pick(ClassSeq, ClassIdx(c) - 1 + j - 1), "t" \o ToString(j))
 MkPart(tag, c, r, j) ==
   LET S == PartSchema[tag]
@@ -56,7 +58,7 @@ C03All == UNION { C03For(k) : k \in Kinds }
 C03Case(m) == [t |-> "c03", m |-> m, expect |-> Norm(m)]
 
 (* C20: pairs (m, perturbed m) with the structural verdict *)
-C20Base == UNION { { MkMsg(k, os, n, c, 0) : os \in {MsgSchema[k].opt, {}}, n \in ChildCounts(k), c \in {"plain", "markup"} } : k \in Kinds }
+C20Base == UNION { { MkMsg(k, os, n, c, 0) : os \in {MsgSchema[k].opt, {}}, n \in ChildCounts(k), c \in {"plain", "markup", "longa"} } : k \in Kinds }
 OtherVal(k, a, v) == IF a \in DOMAIN MsgSchema[k].vocab
                      THEN W(CHOOSE w \in MsgSchema[k].vocab[a] : w # v.s) ELSE V("plain", "zz")
 SameShapeKinds(k) == { k2 \in MsgKinds : k2 # k /\ MsgSchema[k2].req = MsgSchema[k].req /\ MsgSchema[k2].opt = MsgSchema[k].opt
@@ -81,6 +83,10 @@ Perturbations(m) ==
     \cup { P("child-dropped:" \o ToString(i), [m EXCEPT !.children = DropAt(m.children, i)]) : i \in 1..n }
     \cup { P("child-duplicated:" \o ToString(i), [m EXCEPT !.children = DupAt(m.children, i)]) : i \in 1..n }
     \cup { P("child-swapped:" \o ToString(i), [m EXCEPT !.children = SwapAt(m.children, i)]) : i \in 1..(n - 1) }
+    \* two long values that agree on a long prefix and differ only near the end
+    \cup { P("attr-tail-changed:" \o a, [m EXCEPT !.attrs[a] = V("longb", m.attrs[a].s)]) : a \in {x \in DOMAIN m.attrs : m.attrs[x].c = "longa"} }
+    \cup { P("child-text-tail-changed:" \o ToString(i), [m EXCEPT !.children[i].text = V("longb", m.children[i].text.s)]) :
+             i \in {j \in 1..n : m.children[j].text.c = "longa"} }
     \cup { <<"twin-swapped:" \o ToString(i), Twin(m, i), [m EXCEPT !.children = SwapAt(Twin(m, i).children, i)]>> : i \in 1..(n - 1) }
 C20All == UNION { { [t |-> "c20", a |-> p[2], b |-> p[3], p |-> p[1]] : p \in Perturbations(m) } : m \in C20Base }
 \* structural verdict (EqIffSame): equal exactly when the abstract trees are the same
